@@ -35,7 +35,7 @@ MANIFEST = {
     'text': 'Every Range header made of up to 4 (quick) / 5 (thorough) tokens, every file length 0..12 with a 4-byte '
             'streaming buffer, files around the 1 MiB buffer, twelve If-Modified-Since variants (three HTTP-date spellings) and both methods are '
             'served by the real static_file through the default application; status, Content-Range, Content-Length and '
-            'the delivered chunks are compared with the file on disk and the reference range model.',
+            'the delivered chunks are compared with the file on disk and the reference range model. The same with a server that offers wsgi.file_wrapper, and with two answers of one application under way at the same time.',
     'note': 'Bounds: token alphabet of 11, <=5 tokens, lengths 0..12 and around 2^20. Trusted: CPython, email.utils date '
             'formatting, the reference range model in this file.',
 }
